@@ -103,7 +103,7 @@ def main(argv=None):
         j.setdefault("extra_roots", {"refs": ROOT})
         jobs.append(j)
     if a.only:
-        jobs = [j for j in jobs if a.only in j["name"]]
+        jobs = [j for j in jobs if any(x and x in j["name"] for x in a.only.replace("\\|", "|").split("|"))]
     if seed:
         import random
 
